@@ -183,7 +183,18 @@ func vfVerifyCorpus() []*vfVCase {
 	// 3 s before the END of the expiry tolerance: accepted now, and whatever is cached, rejected once the tolerance is over
 	edge := vfTokSpec{Sub: "u", Email: "u@example.com", ExpIn: -117, IatIn: -900}
 	edgeJ := vfTokSpec{Sub: "u", Email: "u@example.com", ExpIn: -117, IatIn: -900, Jti: "jti-corpus-edge"}
+	crowd := &vfVCase{Kind: "corpus-crowd"}
+	rv := vfTokSpec{Sub: "revoked", Email: "u@example.com", ExpIn: 3600, IatIn: -5, Jti: "jti-corpus-revoked"}
+	crowd.Toks = append(crowd.Toks, vfVTok{Kind: "minted", Spec: &rv})
+	crowd.Steps = append(crowd.Steps, vfVStep{Op: "verify", Tok: 0}, vfVStep{Op: "revoke", Tok: 0}, vfVStep{Op: "verify", Tok: 0})
+	for i := 1; i <= 300; i++ {
+		sp := vfTokSpec{Sub: fmt.Sprintf("c%d", i), Email: "u@example.com", ExpIn: 3600, IatIn: -5, Jti: fmt.Sprintf("jti-corpus-crowd-%d", i)}
+		crowd.Toks = append(crowd.Toks, vfVTok{Kind: "minted", Spec: &sp})
+		crowd.Steps = append(crowd.Steps, vfVStep{Op: "verify", Tok: i}, vfVStep{Op: "verify", Tok: i})
+	}
+	crowd.Steps = append(crowd.Steps, vfVStep{Op: "verify", Tok: 0}, vfVStep{Op: "verify", Tok: 0})
 	return []*vfVCase{
+		crowd,
 		{Kind: "corpus", Toks: []vfVTok{{Kind: "minted", Spec: &edge}, {Kind: "minted", Spec: &edgeJ}},
 			Steps: []vfVStep{{Op: "verify", Tok: 0}, {Op: "verify", Tok: 1}, {Op: "verify", Tok: 0}, {Op: "sleep", Ms: 4300},
 				{Op: "verify", Tok: 0}, {Op: "verify", Tok: 1}, {Op: "verify", Tok: 0}}},
